@@ -458,6 +458,13 @@ Definition index_get_positions (index count off_size : Z) : option (option (Z * 
 (* (self.stack.pop_i32()? + subrs_index.subr_bias()) as usize *)
 Definition subr_biased_index (v bias : Z) : option Z := do s <- add32 v bias ;; Some (wrap_u 64 s).
 
+(* skrifa color/instance.rs ColrInstance::var_deltas: the variation index of the i-th delta of a variable record.
+   With a DeltaSetIndexMap: var_index_base.wrapping_add(i) (u32) is looked up in the map; without one the index is
+   truncated to the inner u16: (var_index_base.wrapping_add(i)) as u16, outer = 0. *)
+Definition colr_var_index (has_map : bool) (base i : Z) : option Z :=
+  let v := wrap_u 32 (base + i) in
+  Some (if has_map then v else wrap_u 16 v).
+
 (* ---- correspondence case format (harness/src/bin/c20.rs): (op, args, result);
         result [] = the real function panicked, [v..] = returned value(s) ---- *)
 Definition o1 (r : option Z) : list Z := match r with Some v => [v] | None => [] end.
